@@ -304,7 +304,7 @@ pub fn run(ctx: &mut Ctx) {
         }
     }
     let n = ctx.nshards as u32;
-    drive(ctx, "random", ctx.tier.pick(60_000, 5_000_000) / n, 8, 40, |ctx, bytes| {
+    drive(ctx, "random", ctx.tier.pick(240_000, 5_000_000) / n, 8, 40, |ctx, bytes| {
         let mut c = Choices::new(bytes);
         let (a, b) = rand_pair(&mut c);
         let op = c.pick(ops::BINOPS);
